@@ -8,6 +8,7 @@ from .. import queries as Q
 from .guards import guards
 from .apply_rules import apply_rules
 
+from . import perform_names
 EXPLANATION = (
     'Decides the clause "stale results are never served", reduced to: the '
     'decision to reuse is taken only after every one of name, arguments, '
@@ -149,7 +150,7 @@ def r1_2(ctx, rc):
                    for g in prog.resolve_call(c, F)):
             continue
         n += 1
-        sg = ctx.E.super(F, lambda g: False)
+        sg = ctx.helpers_graph(F, stop=perform_names(ctx))
         performs = [x for x in sg.nodes if x.kind == 'leaf' and
                     isinstance(x.callee, Func) and
                     x.callee.qualname != app and
@@ -409,7 +410,8 @@ def r1_5(ctx, rc):
 def r1_6(ctx, rc):
     R = ctx.R
     root = R.root_runner()
-    sg = ctx.E.super(root, lambda g: False)
+    sg = ctx.helpers_graph(root, stop=(R.builder + '._commit',
+                                      R.builder + '._roll_back'))
     wq = R.cache + '.write'
     cq = R.builder + '._commit'
     ctx.E.func(cq)
